@@ -223,6 +223,10 @@ def run(ctx):
     from .. import c09twin
     if c09twin.run(ctx, quick):
         found = True
+    # ---- E: SFC_SET / GET_CHANNEL_MAP_INFO histories with the container's verdict (vlib/chmapfix.py, Sf.ChmapVerdict) ----
+    from .. import chmapfix
+    if chmapfix.run(ctx, quick):
+        found = True
     corr = [x for x in fa if x.kind == "corr"]
     if corr and not found:
         x = corr[0]
